@@ -302,7 +302,7 @@ def jobs(tier, seed):
     from vf.runner import concur_jobs
     js += concur_jobs(len(CONCUR_SCEN) - (1 if tier == "quick" else 0), curve=list(T[0]), deep=(tier == "thorough"))
     for i in range(3):
-        js.append({"name": f"concurrent/{i}", "part": "concur", "curve": list(T[0]), "idx": i, "weight": 8})
+        js.append({"name": f"concurrent-first-calls/{i}", "part": "concur", "curve": list(T[0]), "idx": i, "weight": 8})
     return js
 
 
@@ -341,7 +341,7 @@ def run_job(job):
                 [["verify", pk_e.hex(), b"c".hex(), sig_e.hex()], ["verify", pk_e.hex(), b"d".hex(), sig_e.hex()]]][job["idx"]]
         case = {"curve": cv, "calls": scen}
         calls, judge = _concur_setup(case)
-        ex = concur.explore_calls(acc, calls, ("bits/bips/bip340.py", "bits/ecmath.py"), 1 if job["tier"] == "quick" else 2, judge, "concur", case)
+        ex = concur.explore_calls(acc, calls, ("bits/bips/bip340.py", "bits/ecmath.py"), 1 if job["tier"] == "quick" else 2, judge, "concur", case, max_exec=6000 if job["tier"] == "quick" else 100_000)
         acc.ob("concurrent_first_calls", ex.executions)
         acc.sample({"concurrent_calls": [c[0] for c in scen], "executions": ex.executions})
         return acc.result()
